@@ -256,7 +256,7 @@ def proof_stage(ctx, props_modules, exes, extra_modules=(), gen=None, leanchecke
                      "".join(f"#print axioms {n}\n" for n in thms))
     rc, out = sh(["lake", "env", "lean", str(audit)], cwd=LEAN, timeout=1200)
     bad, seen = [], 0
-    for m in re.finditer(r"'([^']+)' (does not depend on any axioms|depends on axioms: \[([^\]]*)\])", out):
+    for m in re.finditer(r"(?m)^'(\S+)' (does not depend on any axioms|depends on axioms: \[([^\]]*)\])", out):
         seen += 1
         axs = [a.strip() for a in (m.group(3) or "").replace("\n", " ").split(",") if a.strip()]
         extra = [a for a in axs if a not in ALLOWED_AXIOMS]
